@@ -732,6 +732,39 @@ def r18_4(ctx, run, rule='R18.4'):
                 run.undecided(rule, b.path, f'pair[{pair[0]},{pair[1]}]', 'no arm for this pair of representations was recognised (anchor lost; the match is exhaustive by construction in Rust): not decided', f'{b.file}:{b.line}')
             else:
                 run.proved(rule, b.path, f'pair[{pair[0]},{pair[1]}]', f'{len(table[pair])} path(s)', f'{b.file}:{b.line}', nontrivial=False)
+        # mixed integer / float arms delegate to a helper: called with (self, other) the result stands, with (other, self) it must be reversed
+        for (l, r), qs in sorted(table.items()):
+            if 'Float64' not in (l, r) or l == r:
+                continue
+            verdicts = set()
+            for q in qs:
+                t_ = deref_all(q.ret)
+                parity = 0
+                while t_[0] == 'call' and canon(t_[1]).endswith('Ordering::reverse') and t_[2]:
+                    parity ^= 1
+                    t_ = deref_all(t_[2][0])
+                if not (t_[0] == 'call' and len(t_[2]) == 2 and canon(t_[1]) in {canon(c_) for c_ in cone}):
+                    verdicts.add(None)
+                    continue
+                sides = []
+                for a_ in t_[2]:
+                    ps_ = {s_[1] for s_ in subterms(a_) if s_[0] == 'init' and isinstance(s_[1], int) and 1 <= s_[1] <= 2}
+                    sides.append('L' if ps_ == {1} else 'R' if ps_ == {2} else '?')
+                if sides == ['L', 'R']:
+                    verdicts.add(parity == 0)
+                elif sides == ['R', 'L']:
+                    verdicts.add(parity == 1)
+                else:
+                    verdicts.add(None)
+            d_ = f'cross[{l},{r}]/operand-order'
+            loc_ = f'{b.file}:{b.line}'
+            if False in verdicts:
+                run.violation(rule, b.path, d_, f'the ({l}, {r}) arm hands its operands to the integer/float helper in one order and reports the result for the other: a helper called with '
+                              '(other, self) must be `.reverse()`d, one called with (self, other) must not', loc_)
+            elif verdicts == {True}:
+                run.proved(rule, b.path, d_, 'helper result reversed exactly when the operands are passed in (other, self) order', loc_)
+            else:
+                run.undecided(rule, b.path, d_, 'the arm is not a (possibly reversed) call of a two-operand helper of the ordering cone: operand order not decided', loc_)
         # Int64 vs UInt64: negative is Less, otherwise compared as u64 after a value-preserving cast
         for (l, r), qs in table.items():
             if {l, r} == {'Int64', 'UInt64'}:
